@@ -691,8 +691,10 @@ func (c *collection) save(
 		return err
 	}
 
-	if !isCreate {
-		err := c.updateIndexedDoc(ctx, doc)
+	var oldIndexedDoc *client.Document
+	if !isCreate && len(c.indexes) > 0 {
+		var err error
+		oldIndexedDoc, err = c.getIndexedFieldsOfDoc(ctx, doc.ID())
 		if err != nil {
 			return err
 		}
@@ -804,6 +806,13 @@ func (c *collection) save(
 	link, headNode, err := coreblock.AddDelta(ctx, merkleCRDT, merkleCRDT.Delta(), links...)
 	if err != nil {
 		return err
+	}
+
+	if !isCreate && len(c.indexes) > 0 {
+		err = c.updateIndexedDoc(ctx, oldIndexedDoc, doc.ID())
+		if err != nil {
+			return err
+		}
 	}
 
 	// publish an update event when the txn succeeds
